@@ -54,6 +54,10 @@ impl<'a> IndexCtx<'a> {
         if let Some(def_id) = self.symbol_map.find_def(name) {
             return Some(def_id.into());
         }
+        // the name of a defset is a global value (the list of its records)
+        if let Some(defset_id) = self.symbol_map.find_defset(name) {
+            return Some(defset_id.into());
+        }
         None
     }
 
